@@ -22,6 +22,7 @@ import (
 	"testing"
 	"time"
 
+	"github.com/gotid/god/api/handler"
 	"verif.local/vk"
 )
 
@@ -351,11 +352,27 @@ func TestVerifC02Server(t *testing.T) {
 			{Class: "rtlate", Method: http.MethodGet, N: 3, Timeout: short},
 			{Class: "fast", Method: http.MethodGet, N: 1},
 			{Class: "pv", Method: http.MethodGet, N: c02PanicAlphabetRoutes},
+			{Class: "expect", Method: http.MethodPost, N: 2, Timeout: short},
+			{Class: "expectfast", Method: http.MethodPost, N: 1},
+			{Class: "expectnt", Method: http.MethodPost, N: 2, Timeout: short},
+			{Class: "expectntfast", Method: http.MethodPost, N: 1},
 		})
 		if !ok {
 			return
 		}
 		rr := m.Rand("C")
+		expectDone := make(chan struct{})
+		go func() { // LogHandler flavour (Verbose off); runs alongside the rest of server C
+			defer close(expectDone)
+			c02LiveExpect(c, lv, lv.e.routes["expect"], lv.e.routes["expectfast"][0], m.Rand("C", "expect"))
+			// the same with tracing switched off for these routes (handler.DontTraceSpan): the
+			// log handler then works on the server's own *http.Request, not on a copy
+			for _, rt := range append(append([]*c02Route{}, lv.e.routes["expectnt"]...), lv.e.routes["expectntfast"]...) {
+				handler.DontTraceSpan(rt.Path)
+			}
+			c02LiveExpect(c, lv, lv.e.routes["expectnt"], lv.e.routes["expectntfast"][0], m.Rand("C", "expectnt"))
+		}()
+		defer func() { <-expectDone }()
 		// RecoverHandler alone (no timeout handler on these routes), fresh connections
 		if !c02ScPanicAlphabet(c, lv.e, lv.doer(lv.fresh), lv.e.routes["pv"], m.Rand("C", "pv")) {
 			return
@@ -394,6 +411,8 @@ func TestVerifC02Server(t *testing.T) {
 			{Class: "keep", Method: http.MethodGet, N: 2},
 			{Class: "keeplate", Method: http.MethodGet, N: 2, Timeout: short},
 			{Class: "pv", Method: http.MethodGet, N: c02PanicAlphabetRoutes},
+			{Class: "expect", Method: http.MethodPost, N: 2, Timeout: short},
+			{Class: "expectfast", Method: http.MethodPost, N: 1},
 		})
 		if !ok {
 			return
@@ -450,6 +469,9 @@ func TestVerifC02Server(t *testing.T) {
 					return
 				}
 			}
+		})
+		sub("expect", func(r *rand.Rand) { // DetailedLogHandler flavour (Verbose on)
+			c02LiveExpect(c, lv, lv.e.routes["expect"], lv.e.routes["expectfast"][0], r)
 		})
 		sub("pv", func(r *rand.Rand) { // timeout + recover chain
 			c02ScPanicAlphabet(c, lv.e, fresh, lv.e.routes["pv"], r)
